@@ -330,14 +330,22 @@ def sqrt_roles(fn_node):
                 return r
         return None
     w = find(fn_node, 'WhileStmt') if fn_node else None
+    loop_body = kids(w)[1] if w else None
+    cond_node = kids(w)[0] if w else None
     if not w:
-        raise Undecided('sqrt_abacus: no while loop found')
-    cond = strip(kids(w)[0])
+        w = find(fn_node, 'ForStmt') if fn_node else None
+        if not w:
+            raise Undecided('sqrt_abacus: no loop found')
+        parts = [c for c in w.get('inner', [])]
+        if len(parts) != 5 or not parts[2]:
+            raise Undecided('sqrt_abacus: for loop shape')
+        cond_node, loop_body = parts[2], parts[4]
+    cond = strip(cond_node)
     if cond.get('kind') != 'BinaryOperator' or cond.get('opcode') not in ('!=', '>') or strip(kids(cond)[0]).get('kind') != 'DeclRefExpr' \
             or strip(kids(cond)[1]).get('value') != '0':
         raise Undecided('sqrt_abacus: loop condition is not `P != 0` / `P > 0`')
     pwr4 = strip(kids(cond)[0])['referencedDecl']['name']
-    iff = find(kids(w)[1], 'IfStmt')
+    iff = find(loop_body, 'IfStmt')
     c = strip(kids(iff)[0]) if iff else {}
     if c.get('kind') != 'BinaryOperator' or c.get('opcode') != '>=':
         raise Undecided('sqrt_abacus: loop body does not start with `if( V >= ( R + P ) )`')
@@ -353,7 +361,7 @@ def sqrt_roles(fn_node):
                 if r:
                     return r
             return None
-        d = find_decl(kids(w)[1], sm['referencedDecl']['id'])
+        d = find_decl(loop_body, sm['referencedDecl']['id'])
         init = [x for x in kids(d)] if d else []
         sm = strip(init[-1]) if init else sm
         while sm.get('kind') == 'InitListExpr' and kids(sm):
@@ -576,7 +584,7 @@ HYPOT = '_ZN9fixedmath5hypotENS_7fixed_tES0_'
 K_SQRT_HYP = (SQRT, 'pre_sqrt_hyp', 'post_sqrt_hyp')
 for cfg in ('abacus', 'stdsqrt'):
     U('C14', 'c14.hypot.' + cfg, HYPOT, 'pre_c14', 'post_hypot', replace=[K_SQRT_HYP], cfg=cfg, cxx='fixedmath::hypot($1,$2)',
-      extra_flags=['--unsigned-overflow-check'], backends=MULBE, timeout=900, native_post='native_hypot_ok')
+      extra_flags=['--unsigned-overflow-check'], ignore_desc=r'overflow on unsigned (-|unary minus|shl)', backends=MULBE, timeout=900, native_post='native_hypot_ok')
 U('C14', 'c14.sqrt_bound', 'lem_c14_sqrt_bound', 'pre_c14_sqrtb', None, lemma=True, cxx='lem_c14_sqrt_bound($1,$2)', **INTQ)
 
 def hypot_roles(fn_node):
